@@ -240,10 +240,10 @@ class Nodes:
                 new_node = Nodes.make_new_node(
                     source_node, value, new_format, **kwargs)
 
-        if new_node is None:
+        if new_node is None and new_type is not type(None):
             if hasattr(source_node, "anchor") and source_node.anchor.value:
                 new_node = new_type(new_value, anchor=source_node.anchor.value)
-            elif new_type is not type(None):
+            else:
                 new_node = new_type(new_value)
 
         # Apply a custom tag, if provided
